@@ -78,6 +78,12 @@ def flaggedSink (o : Op) : Option Nat :=
   | some (.tid sink _ true) => some sink
   | _ => none
 
+/-- an `add_rule` call enters the history if its policy method succeeded -/
+def effAdd (o : Op) : List Op :=
+  match regOf o with
+  | some _ => [o]
+  | none => []
+
 /-- what the router itself must call during an operation: for `startTestRun` / `stopTestRun` one call per sink
 registered for them — including sinks registered while the dispatch is under way —, otherwise a fixed list -/
 inductive Mode where
@@ -105,7 +111,7 @@ def walk (hb ff running : Bool) (m : Mode) : Nat → List Op → Option Nat → 
   | i, h, none, _, [] => if allDone hb ff m h i then some (none, h) else none
   | _, h, none, st, [.exc x] => if st then some (some x, h) else none
   | i, h, none, st, .radd o :: r =>
-    if st then walk hb ff running m i (h ++ [o]) (if running then flaggedSink o else none) st r else none
+    if st then walk hb ff running m i (h ++ effAdd o) (if running then flaggedSink o else none) st r else none
   | i, h, none, _, .del x ev false :: r =>
     if nextTop hb ff m h i = some (x, ev) then walk hb ff running m (i + 1) h none true r else none
   | _, _, none, _, _ => none
@@ -115,6 +121,13 @@ def closes (res : Res) (w : Option (Option String × List Op)) (completed : List
   | some (none, h) => if res == .ok then some (h ++ completed) else none
   | some (some x, h) => if res == .raised x then some h else none
   | none => none
+
+/-- an `add_rule` of the driver whose policy method succeeds: the new sink is started at once iff it was registered
+with the flag and a run is in progress -/
+def addOk (hb ff : Bool) (H : List Op) (o : Op) (seg : List Item) (res : Res) : Option (List Op) :=
+  closes res (walk hb ff (inRun H)
+    (.fixed (match flaggedSink o with | some y => if inRun H then [(y, .start)] else [] | none => []))
+    0 (H ++ [o]) none false seg) []
 
 /-- one operation of the driver against what was observed during it and what it returned; result: the history
 afterwards, `none` = the property is violated -/
@@ -132,18 +145,19 @@ def opOk (hb ff : Bool) (H : List Op) (o : Op) (seg : List Item) (res : Res) : O
   | o =>
     match regOf o with
     | none => if seg.isEmpty && res != .ok then some H else none
-    | some _ =>
-      closes res (walk hb ff (inRun H)
-        (.fixed (match flaggedSink o with | some y => if inRun H then [(y, .start)] else [] | none => []))
-        0 (H ++ [o]) none false seg) []
+    | some _ => addOk hb ff H o seg res
 
-def historyOk (hb ff : Bool) : List Op → List Op → List (List Item) → List Res → Bool
-  | _, [], [], [] => true
+/-- the history after all operations; `none` = the property is violated somewhere -/
+def finalHist (hb ff : Bool) : List Op → List Op → List (List Item) → List Res → Option (List Op)
+  | H, [], [], [] => some H
   | H, o :: os, seg :: segs, r :: rs =>
     match opOk hb ff H o seg r with
-    | some H' => historyOk hb ff H' os segs rs
-    | none => false
-  | _, _, _, _ => false
+    | some H' => finalHist hb ff H' os segs rs
+    | none => none
+  | _, _, _, _ => none
+
+def historyOk (hb ff : Bool) (H : List Op) (os : List Op) (segs : List (List Item)) (rs : List Res) : Bool :=
+  (finalHist hb ff H os segs rs).isSome
 
 /-- **the property over whole histories**: every status goes to the one sink `destination` names (rules registered
 so far, by whatever path), unchanged but for a consumed route segment; `startTestRun` / `stopTestRun` call each sink
@@ -173,21 +187,16 @@ def runsWellFormed : Bool → List Op → Bool
   | running, .stop :: os => running && runsWellFormed false os
   | running, _ :: os => runsWellFormed running os
 
-def raddsOf : List Item → List Op
-  | [] => []
-  | .radd o :: r => o :: raddsOf r
-  | _ :: r => raddsOf r
-
-/-- all sinks ever registered for start/stop (by the driver's operations and re-entrantly), with repetitions -/
-def allFlagged (i : Input) (t : Trace) : List Nat :=
-  (if i.hasFallback && i.fbFlag then [0] else []) ++ (i.ops ++ (t.segments.map raddsOf).flatten).filterMap flaggedSink
-
 def sinksOf (t : Trace) : List Nat :=
   (t.segments.flatten.filterMap fun | .del x _ _ => some x | _ => none).eraseDups
 
-/-- no sink raises, runs do not nest, no sink is registered twice for start/stop -/
+/-- no sink raises, runs do not nest (the driver starts a run only when none is in progress and stops only a run in
+progress), and no sink is registered twice for start/stop (by the driver or re-entrantly; the fallback counts) -/
 def clean (i : Input) (t : Trace) : Bool :=
-  !(t.segments.any hasExc) && runsWellFormed false i.ops && decide (allFlagged i t).Nodup
+  !(t.segments.any hasExc) && runsWellFormed false i.ops &&
+    match finalHist i.hasFallback i.fbFlag [] i.ops t.segments t.results with
+    | some Hf => decide (flagged i.hasFallback i.fbFlag (regs Hf)).Nodup
+    | none => false
 
 /-- in such a history every sink sees `startTestRun` and `stopTestRun` strictly alternating, beginning with a start:
 at most one start per run, never a stop without a start -/
